@@ -213,6 +213,23 @@ func TestC19(t *testing.T) {
 			}
 		}
 	}
+	// D in any notation time.ParseDuration accepts (fractions, a leading sign or dot, compound durations):
+	// N per exactly that duration - only the seven bare unit names mean "one of it"
+	durs := []string{".5s", "0.5s", "+2s", "1.5s", "1m30s", "1.5h", "0.25m", "2h45m", "100us", "1.5ms", "001s"}
+	R.Set("rate_duration_notations", durs)
+	for _, n := range bounds {
+		for _, d := range durs {
+			per, err := time.ParseDuration(d)
+			if err != nil {
+				t.Fatalf("harness: %v", err)
+			}
+			c := c19RateCase{text: strconv.Itoa(n) + "/" + d, freq: n, per: per, unlimited: n == 0, form: "N/duration"}
+			if n == 0 {
+				c.form = "0:" + c.form
+			}
+			rateCases = append(rateCases, c)
+		}
+	}
 	rateValue := func(c c19RateCase, full bool) {
 		R.Eval(1)
 		if c.freq != 50 || c.per != time.Second {
@@ -577,6 +594,7 @@ func TestC19(t *testing.T) {
 		{"example.com:80:localhost:6060", "example.com:80", "localhost:6060", false},
 		{"1.2.3.4:443:10.0.0.1:443", "1.2.3.4:443", "10.0.0.1:443", false},
 		{"example.com:443:127.0.0.1:8443", "example.com:443", "127.0.0.1:8443", false},
+		{"Svc.Example.TEST:80:Dst.Example.TEST:9090", "Svc.Example.TEST:80", "Dst.Example.TEST:9090", false}, // the key is the address as written: the dial path looks it up verbatim
 		{"x", "", "", true}, {"a:b:c", "", "", true}, {"a:1:b:2:c", "", "", true},
 	}
 	cl := ev.Pick(3, 4)
